@@ -106,8 +106,22 @@ pub fn check_rtt(c: &RttCase, st: &mut Stats) -> Result<(), String> {
             .map(|x| x.tags.join(","))
     };
     for (n, t) in c.txns.iter().enumerate() {
+        // kinds 5 and 6: in the middle of the gap the application tries a request with a buffer that is too small; the
+        // call fails and must leave no trace (in particular it is not "a request" for the ten-minute rule)
+        if t.kind >= 5 && t.gap >= 4 {
+            sim.now += t.gap / 2;
+            let before = sim.reqs.len();
+            let _ = sim.step(&Op::Send { method: 1, attrs: vec![], small_buf: true });
+            if sim.reqs.len() != before {
+                st.class("small-buffer-send-was-accepted");
+            } else {
+                st.class("has-refused-send-inside-gap");
+            }
+            sim.now += t.gap - t.gap / 2;
+        } else {
+            sim.now += t.gap.max(1);
+        }
         // deliver overdue pending responses first
-        sim.now += t.gap.max(1);
         let now = sim.now;
         let mut due: Vec<(usize, u64, u8)> = pending.iter().copied().filter(|p| p.1 <= now).collect();
         pending.retain(|p| p.1 > now);
@@ -300,7 +314,7 @@ pub fn arb_case(max: usize) -> BoxedStrategy<RttCase> {
                 1 => 1_000_000u64..=40_000_000_000,
                 3 => proptest::sample::select(specials),
             ];
-            let txn = (gap, prop_oneof![4 => Just(0u8), 1 => 1u8..=3], delay, prop_oneof![19 => Just(false), 1 => Just(true)], prop_oneof![5 => Just(false), 1 => Just(true)], prop_oneof![4 => Just(0u8), 3 => 1u8..=4])
+            let txn = (gap, prop_oneof![4 => Just(0u8), 1 => 1u8..=3], delay, prop_oneof![19 => Just(false), 1 => Just(true)], prop_oneof![5 => Just(false), 1 => Just(true)], prop_oneof![4 => Just(0u8), 3 => 1u8..=4, 1 => 5u8..=6])
                 .prop_map(|(gap, retrans, delay, lost, overlap, kind)| Txn { gap, retrans, delay, lost, overlap, kind });
             proptest::collection::vec(txn, 1..=max).prop_map(move |txns| RttCase { rto_us, gran_us, txns, rc_rm, mech })
         })
